@@ -194,6 +194,7 @@ package parser
 
 //@ func Parser.Buffer
 //@   requires r != nil && r.inputScanner != nil && !scstarted(r.inputScanner)
+//@   requires a_limit_is_given: maxSize > 0 || buf != nil
 //@   modifies scannercell(r.inputScanner)
 //@   ensures limit_forwarded: scmax(r.inputScanner) == maxSize && !scstarted(r.inputScanner) && scdone(r.inputScanner) == old(scdone(r.inputScanner)) && scerr(r.inputScanner) == old(scerr(r.inputScanner)) && sctok(r.inputScanner) == old(sctok(r.inputScanner))
 
